@@ -1,9 +1,39 @@
 import Drivers.Proto
-/-! Model driver for property C10 (stub: no model operations registered yet). -/
-open Lean Proto
+import St4sd.Model.ArgSubst
+/-! Model driver for property C10 (reference substitution in argument strings). -/
+open Lean Proto St4sd.ArgSubst
+
+def parseKind (s : String) : Except String Kind :=
+  match s with
+  | "ref" => pure .ref
+  | "output" => pure .output
+  | "other" => pure .other
+  | _ => throw s!"unknown kind {s}"
+
+def parseRef (j : Json) : Except String Ref := do
+  let abs ← getChars j "abs"
+  let rel ← getChars j "rel"
+  let ra ← getBool j "relActive"
+  let kind ← parseKind (← getStr j "kind")
+  let v ← getOptStr j "value"
+  return { abs := abs, rel := rel, relActive := ra, kind := kind, value := v.map String.toList }
+
+def resultJson (r : Result) : Json :=
+  jobj [("out", jchars r.out), ("unused", jarr (r.unused.map jchars)), ("unresolved", jbool r.unresolved)]
 
 def handle (j : Json) : Except String Json := do
   let op ← getStr j "op"
-  throw s!"unknown op {op}"
+  match op with
+  | "resolve" =>
+    let args ← getChars j "args"
+    let refs ← (← getArr j "refs").mapM parseRef
+    let p := parse (entries refs) args
+    return jobj [("new", resultJson (resolve refs args)),
+                 ("old", resultJson (resolveOld refs args)),
+                 ("functional", jbool (functionalB (entries refs))),
+                 ("tokens", jarr ((usedKeys p).map jchars)),
+                 ("roundtrip", jbool (renderK p == args))]
+  | "methods" => return jobj [("methods", jarr (methods.map jchars))]
+  | _ => throw s!"unknown op {op}"
 
 def main : IO Unit := serve handle
